@@ -78,6 +78,23 @@ def spellings(ns, name, value, content):
     return out
 
 
+def scoped(ns, name, value, content):
+    """a prefix means what the NEAREST declaration says: the same prefix bound to a foreign URI in a
+    sibling subtree (before / after the statement) -- {id: (text, reference text)}"""
+    title = ' title="t"' if name == 'attributes' and ns == 'i18n' else ''
+    inner = content % {'p': ns + ':'} if '%(p)s' in content else content
+    innerr = content % {'p': 'rb:'} if '%(p)s' in content else content
+    foreign = '<f xmlns:rb="urn:x-foreign" rb:note="kept">w</f>'
+    stmt = '<e%s xmlns:rb="%s" rb:%s="%s">%s</e>' % (title, URI[ns], name, value, innerr)
+    ref = '<e%s %s:%s="%s">%s</e>' % (title, ns, name, value, inner)
+    return {
+        'rebound-after-foreign': ('<z>%s%s</z>' % (foreign, stmt), '<z>%s%s</z>' % (foreign, ref)),
+        'foreign-after-rebound': ('<z>%s%s</z>' % (stmt, foreign), '<z>%s%s</z>' % (ref, foreign)),
+        # the default prefix itself re-bound to a foreign URI further down: that attribute is ordinary
+        'default-prefix-rebound': ('<z>%s<f xmlns:%s="urn:x-foreign" %s:note="kept">w</f></z>' % (ref, ns, ns), None),
+    }
+
+
 EXTRA = ('data+foreign-data', 'dup-static', 'data+prefixed', 'ns-element', 'ns-element+omit',
          'ns-element+on-error')
 
@@ -119,8 +136,41 @@ def unit(spec):
         text, _ = spellings(ns, name, value, content)['default']
         schemas.append({'id': '%s|default+data-option' % sid, 'text': text,
                         'options': {'enable_data_attributes': True}})
+    for sid, ns, name, value, content in STATEMENTS:
+        for sp, (text, reftext) in scoped(ns, name, value, content).items():
+            schemas.append({'id': '%s|%s' % (sid, sp), 'text': text, 'options': {}})
+            if reftext is not None:
+                schemas.append({'id': '%s|%s|ref' % (sid, sp), 'text': reftext, 'options': {}})
     compiled = k3.compile_schemas(schemas)
     obls = []
+    for sid, ns, name, value, content in STATEMENTS:
+        for sp, (text, reftext) in scoped(ns, name, value, content).items():
+            got = compiled['%s|%s' % (sid, sp)]
+            if reftext is None:
+                if 'source' not in compiled['%s|default' % sid]:
+                    continue        # the statement itself is rejected in every spelling
+                # the attribute with the re-bound prefix is an ordinary one: it is preserved as written
+                want = ' %s:note="kept"' % ns
+                ok = 'source' in got and any(want in l for l in literals(got['source']))
+                detail = {'template': text, 'expected_in_output': want,
+                          'compile_error': got.get('error'), 'message': got.get('message')}
+                what = 'an attribute whose prefix %s: is re-bound to a foreign namespace is preserved' % ns
+            else:
+                base = compiled['%s|%s|ref' % (sid, sp)]
+                if 'source' not in base:
+                    continue
+                ok = 'source' in got and normalise(base['source']) == normalise(got['source'])
+                detail = {'template': text, 'reference': reftext, 'compile_error': got.get('error'),
+                          'message': got.get('message')}
+                what = ('statement %s compiles to the same code when its prefix is bound to a foreign '
+                        'namespace in a sibling subtree (%s)' % (sid, sp))
+            o = {'name': 'scoped[%s,%s]' % (sid, sp), 'expect': 'valid', 'status': 'discharged' if ok else 'failed',
+                 'backend': 'enumeration-complete', 'time': 0.0, 'okind': 'schema', 'tried': 'compile',
+                 'text': what}
+            if not ok:
+                o['confirmed'] = True
+                o['witness'] = {'inputs': detail, 'detail': 'emitted code differs from the reference'}
+            obls.append(o)
     for sid, ns, name, value, content in STATEMENTS:
         ref = compiled['%s|default' % sid]
         refd = compiled['%s|default+data-option' % sid]
